@@ -41,4 +41,8 @@ theorem nothing_answered_after (maxAuth : Nat) (pre : List Bytes) (bad : Bytes) 
 /-- non-vacuity: an 8-byte record is not a call -/
 example : (serve 400 [[0, 0, 0, 1, 0, 0, 0, 0]]).2 = true := by decide
 
+/-- a call refused at the RPC level gives the policy read-lock back first: nothing is left held that could stop a later
+    policy reload, and with it every other connection -/
+theorem gen_refusal_unlocks : Gen.handleCallUnlocksOnRefusal = true := by decide
+
 end Props.C15
